@@ -88,6 +88,8 @@ pub struct SimNet {
     pub refuse_unknown_dials: AtomicBool,
     /// message ids of /rr/ request envelopes that reached the wire, in order
     pub rr_ids: Mutex<Vec<String>>,
+    /// destinations whose sends stall for the given number of ms before the router accepts them
+    pub stall: Mutex<HashMap<String, u64>>,
 }
 
 pub fn op_name(op: &DhtNetworkOperation) -> String {
@@ -122,6 +124,7 @@ impl SimNet {
             counter: AtomicU64::new(0),
             refuse_unknown_dials: AtomicBool::new(false),
             rr_ids: Mutex::new(vec![]),
+            stall: Mutex::new(HashMap::new()),
         })
     }
     pub fn add_scripted(&self, id: &str, addr: &str, behaviour: Behaviour) {
@@ -201,6 +204,8 @@ impl VerifRouter for SimNet {
             None => (None, vec![]),
         };
         let mut ev = TraceEv { at_ms: self.now_ms(), from: from.into(), to: to.into(), is_request, op, msg_id, delivered: false, result, nodes };
+        let stall_ms = self.stall.lock().unwrap().get(to).copied().unwrap_or(0);
+        if stall_ms > 0 { tokio::time::sleep(Duration::from_millis(stall_ms)).await; }
         // real destination
         let real = self.real.lock().unwrap().get(to).cloned();
         if let Some(node) = real {
